@@ -73,7 +73,7 @@ REQUIRED_THEOREMS = ["peer_session_functional_injective", "one_new_one_del_per_s
                      "last_release_frees_client_session", "release_keeps_referenced_session", "early_release_keeps_session",
                      "end_call_home_is_release",
                      "client_session_in_table_is_referenced", "client_invariant_step",
-                     "unreferenced_session_is_server_session"]
+                     "unreferenced_session_is_server_session", "own_client_session_outside_peer_map"]
 RULE = ("one line = one whole history on a fresh real server context with two UDP endpoints and one TCP endpoint: requests from 1..50 peers "
         "(peers P and P+25 share the remote address/port and differ in the local port only; groups share the remote IP or the "
         "remote port) and, in about a third of the histories, 1..4 stream peers (connect + CSM, whole requests / observe / async / "
@@ -95,7 +95,9 @@ RULE = ("one line = one whole history on a fresh real server context with two UD
         "reference/release, call home (coap_session_set_type_client on a peer's session after a request / observation / async entry, then more "
         "requests, notifications, references, time beyond the session timeout, idle-limit pressure, disconnect, the other holders letting go, "
         "coap_session_release of the call-home reference, the peer talking again, teardown with the call-home session alive), session disconnect, resource deletion (also while dirty), max_idle_sessions / session_timeout settings, virtual-time jumps on both sides of every timeout "
-        "(retransmission deadlines, session_timeout-1/0/+1), I/O steps, context teardown at any point (always at the end); "
+        "(retransmission deadlines, session_timeout-1/0/+1), I/O steps, in about a fifth of the histories 1..3 client sessions proper "
+        "(coap_new_client_session on the SAME context + 0..2 coap_session_reference, kept by the application until coap_free_context: "
+        "lifetime only, round R12d), context teardown at any point (always at the end); "
         "non-trivial = distinct history that created at least one session and has at least 4 events")
 TRUSTED_BASE = ["Lean 4.33 kernel; axioms allowed: propext, Classical.choice, Quot.sound (audited per theorem each run)",
                 "harness/sessions.c on sim_core.h (virtual clock, scripted datagram network; for stream peers the interposed socket shims "
